@@ -307,7 +307,7 @@ def concretisations(thorough):
 
 def run(ctx):
     thorough = ctx.tier == 'thorough'
-    L = 12 if thorough else 8
+    L = 16 if thorough else 8
     ctx.notes['rule'] = ('closure-object states (class or alias x flag x sigma x potential family) x public calls exported by TLC; distinct = '
                          '(state, call) pairs executed on the real classes per grid concretisation; every Calculate compares all grid points '
                          'with the TLC-selected term on seeded gamma / potential arrays')
@@ -328,7 +328,7 @@ def run(ctx):
         w = Walker(ctx, g, ad, 'replay.closure.%s' % c.name)
         ne = w.cover_edges()
         npaths, complete = w.all_paths(3, budget=200000 if thorough else 25000)
-        nr = w.random_walks(300 if thorough else 40, 8, ctx.seed)
+        nr = w.random_walks(2000 if thorough else 40, 10, ctx.seed)
         ctx.stage('replay.closure', concretisation=c.describe(), graph_states=len(g.state), graph_edges=g.n_edges,
                   edges_replayed=ne, paths=npaths, paths_complete=complete, random_walks=nr, real_calls=w.steps)
     weak_coupling(ctx, info)
